@@ -50,8 +50,9 @@ type RunConfig struct {
 	HasFocus       bool `json:"has_focus,omitempty"`
 	Focus          int  `json:"focus,omitempty"`
 	FocusRealTimer bool `json:"focus_real_timer,omitempty"`
-	LateResultPm, ReleasePm, ApiPm, HoldPm, BurstPm, LogYieldPm int
+	LateResultPm, ReleasePm, ApiPm, HoldPm, BurstPm, LogYieldPm, YieldPm, TimeoutBlockedPm int
 	CancelAt       int  `json:"cancel_at,omitempty"`
+	AllGated       bool `json:"all_gated,omitempty"`
 	ProofPm        int  `json:"proof_pm,omitempty"`
 	LenientNilBlock bool `json:"lenient_nil_block,omitempty"`
 }
@@ -78,7 +79,7 @@ func drawRate(ch *Chooser, label string) int {
 // genCommittees draws committees (order = leader order) and weights for heights 1..H+1.
 func genCommittees(ch *Chooser, cfg *RunConfig, subset bool) {
 	cfg.Committees = map[uint64][]CM{}
-	mode := ch.Pick("wmode", 6) // 0 equal, 1 small random, 2 one dominant-ish, 3 skewed, 4 huge, 5 small random
+	mode := ch.Pick("wmode", 8) // 0 equal, 1 small random, 2 one dominant-ish, 3 skewed, 4 huge, 5 small random, 6/7 enormous (total in [2^63, 2^64))
 	samePerHeight := ch.Pick("same-committee", 2) == 0
 	var first []CM
 	for h := 1; h <= cfg.Heights+1; h++ {
@@ -92,6 +93,12 @@ func genCommittees(ch *Chooser, cfg *RunConfig, subset bool) {
 		}
 		perm := ch.Perm("order", cfg.N)
 		var c []CM
+		var target uint64
+		if mode >= 6 {
+			// the total weight fits in 64 bits but not in 63: doubling or tripling it wraps
+			r := uint64(ch.Pick("w-total-r", 1000))
+			target = []uint64{1<<63 + r, ^uint64(0) - r, 3<<62 + r, 1 << 63}[ch.Pick("w-total", 4)]
+		}
 		for _, idx := range perm[:size] {
 			var wgt uint64 = 1
 			switch mode {
@@ -103,6 +110,11 @@ func genCommittees(ch *Chooser, cfg *RunConfig, subset bool) {
 				wgt = uint64(1) << uint(ch.Pick("w", 6))
 			case 4:
 				wgt = (uint64(1) << 52) + uint64(ch.Pick("w", 1000))
+			case 6, 7:
+				wgt = target / uint64(size)
+				if len(c) == 0 {
+					wgt += target % uint64(size)
+				}
 			}
 			c = append(c, CM{idx, wgt})
 		}
